@@ -15,6 +15,14 @@ func UnsupportedDSLNestingError(typeName string, relationName string) error {
 	)
 }
 
+func ConditionParamMissingGenericTypeError(parameterName string, containerType string) error {
+	return fmt.Errorf( //nolint:goerr113
+		"the '%s' parameter of type '%s' is missing its generic type",
+		parameterName,
+		containerType,
+	)
+}
+
 func ConditionNameDoesntMatchError(conditionName string, conditionNestedName string) error {
 	return fmt.Errorf( //nolint:goerr113
 		"the '%s' condition has a different nested condition name ('%s')",
